@@ -130,7 +130,7 @@ Fixpoint fafter {S} (fc : fcursor S) (prog : list op) (s : S) : S :=
   match prog with [] => s | o :: p => fafter fc p (step (f_cur fc) o s) end.
 
 (* "a call that returned Err was a no-op": the reference index simply does not move on an Err.
-   This is NOT what the combinators guarantee (C11_next_after_error_refuted): after an Err, next
+   This is NOT what the combinators guarantee (C11_failed_call_is_not_a_noop): after an Err, next
    and prev are unspecified until a seek / seek_to_first / seek_to_last succeeds. *)
 Fixpoint fnoop_ref (l : list entry) (prog : list op) (os : list fobs) (i : Z) : list (option entry) :=
   match prog, os with
